@@ -578,6 +578,26 @@ class KeyPath(formatting.Formattable):
       return comparison(self.key, other.key)
 
 
+def _trie_key(key: Any) -> Any:
+  """Returns the trie key for a path key.
+
+  `KeyPathSet` marks the end of a path with the trie entry `'$'`. A path key
+  that could be taken for that marker is stored wrapped as `('$', key)`, so
+  that every path key has a trie key of its own.
+  """
+  if (isinstance(key, str) and key == '$') or (
+      isinstance(key, tuple) and key[:1] == ('$',)):
+    return ('$', key)
+  return key
+
+
+def _path_key(trie_key: Any) -> Any:
+  """Returns the path key for a trie key (inverse of `_trie_key`)."""
+  if isinstance(trie_key, tuple) and trie_key[:1] == ('$',):
+    return trie_key[1]
+  return trie_key
+
+
 class KeyPathSet(formatting.Formattable):
   """A KeyPath set based on trie-like data structure."""
 
@@ -601,7 +621,7 @@ class KeyPathSet(formatting.Formattable):
     path = KeyPath.from_value(path)
     root = self._trie
     updated = False
-    for key in path.keys:
+    for key in map(_trie_key, path.keys):
       if key not in root:
         root[key] = {}
         if include_intermediate:
@@ -618,8 +638,9 @@ class KeyPathSet(formatting.Formattable):
   def remove(self, path: Union[str, int, KeyPath]) -> bool:
     """Removes a path from the set."""
     path = KeyPath.from_value(path)
+    keys = [_trie_key(key) for key in path.keys]
     stack = [self._trie]
-    for key in path.keys:
+    for key in keys:
       if key not in stack[-1]:
         return False
       value = stack[-1][key]
@@ -629,8 +650,8 @@ class KeyPathSet(formatting.Formattable):
     if '$' in stack[-1]:
       stack[-1].pop('$')
       stack.pop(-1)
-      assert len(stack) == len(path.keys), (path.keys, stack)
-      for key, parent_node in zip(reversed(path.keys), reversed(stack)):
+      assert len(stack) == len(keys), (path.keys, stack)
+      for key, parent_node in zip(reversed(keys), reversed(stack)):
         if not parent_node[key]:
           del parent_node[key]
       return True
@@ -640,7 +661,7 @@ class KeyPathSet(formatting.Formattable):
     """Returns True if the path is in the set."""
     path = KeyPath.from_value(path)
     root = self._trie
-    for key in path.keys:
+    for key in map(_trie_key, path.keys):
       if key not in root:
         return False
       root = root[key]
@@ -657,7 +678,7 @@ class KeyPathSet(formatting.Formattable):
         if k == '$':
           yield KeyPath(keys)
         else:
-          keys.append(k)
+          keys.append(_path_key(k))
           for path in _traverse(v, keys):
             yield path
           keys.pop(-1)
@@ -673,7 +694,7 @@ class KeyPathSet(formatting.Formattable):
     """Returns True if the set has a path with the given prefix."""
     root_path = KeyPath.from_value(root_path)
     root = self._trie
-    for key in root_path.keys:
+    for key in map(_trie_key, root_path.keys):
       if key not in root:
         return False
       root = root[key]
@@ -693,7 +714,7 @@ class KeyPathSet(formatting.Formattable):
       return
     root = self._trie
     for key in reversed(root_path.keys):
-      root = {key: root}
+      root = {_trie_key(key): root}
     self._trie = root
 
   def clear(self) -> None:
@@ -785,7 +806,7 @@ class KeyPathSet(formatting.Formattable):
     if not root_path:
       return self
     root = self._trie
-    for key in root_path.keys:
+    for key in map(_trie_key, root_path.keys):
       if key not in root:
         return None
       root = root[key]
